@@ -55,19 +55,24 @@ THEOREMS = [_T + n for n in [
 ]]
 LEVEL_TEXT = ("Lean theorems over the model of the five crowsetta modules hold for all rational inputs and all option "
               "records: the expansion factor is applied exactly once on import (onset/te, sample/samplerate, f*te), import "
-              "keeps order and length, one lemma per rung of both label cascades plus a complete case characterisation, "
-              "export spans the bounds, sample indices are floor(time*samplerate), the Nyquist cap, the cast/raise switches "
-              "and the ignore_errors policy, and export after import is the identity for segments, boxes, sequences and "
-              "annotations without time expansion and with value-only labels.  The model is tied to the source on every "
-              "run: keyword defaults re-extracted from the signatures, the import arithmetic and the box export "
-              "(through crowsetta's own validators) by path-exhaustive symbolic tracing proved equal to the model for all "
-              "inputs, both cascades by exhaustive enumeration of the abstracted option space, numeric behaviour on dyadic "
-              "grids through real crowsetta objects.")
-LEVEL_NOTE = ("Trusted: Lean kernel, symbolic tracer and its stubs (data constructors, compute_bounds, label functions), "
-              "shapely bounds, pydantic parsing, crowsetta's classes (their validators are modelled and traced). "
-              "Unmodelled: binary64 rounding of time/te, sample/(samplerate/te) and time*samplerate off the dyadic grid "
-              "(compared round-once / with tolerance; probed by the free-mode round-trip monitor), ZeroDivisionError for a "
-              "zero samplerate or expansion factor, loading the recording from the notated path.")
+              "keeps order and length (also when the recording is loaded from the notated path), one lemma per rung of both "
+              "label cascades plus a complete case characterisation, export spans the bounds (as minimum / maximum over the "
+              "geometry's points), sample indices are floor(time*samplerate), the Nyquist cap, the cast/raise switches as a "
+              "table over the nine geometry types, the ignore_errors policy, and export after import is the identity for "
+              "segments, boxes, sequences and annotations without time expansion and with value-only labels (value_only or "
+              "select_by_key of the importer's key).  The model is tied to the source on every run: keyword defaults "
+              "re-extracted from the signatures, the import arithmetic, the box export (through crowsetta's own validators) "
+              "and the segment export (seconds and the arguments of int()) for every geometry type x switch combination by "
+              "path-exhaustive symbolic tracing proved equal to the model for all inputs, both cascades by exhaustive "
+              "enumeration of the abstracted option space incl. falsy values, numeric behaviour on dyadic grids through real "
+              "crowsetta objects (floats, ints, numpy scalars) and a real WAV file for the recording=None path.")
+LEVEL_NOTE = ("Trusted: Lean kernel, symbolic tracer and its stubs (data constructors, crowsetta.Segment, compute_bounds, label "
+              "functions, the int()/math.floor hook), shapely bounds, pydantic parsing, crowsetta's classes (BBox validators are "
+              "modelled and traced), Recording.from_file (a parameter of the model; its contract path/time_expansion is "
+              "evaluated on every call). Unmodelled: binary64 rounding of time/te, sample/(samplerate/te) and time*samplerate "
+              "off the dyadic grid (compared round-once / with tolerance; probed by the free-mode round-trip monitor), "
+              "ZeroDivisionError for a zero samplerate or expansion factor, the crowsetta != 4 constructor branch of "
+              "create_crowsetta_segment (not importable with the installed crowsetta).")
 TECHNIQUE = ("Lean 4 proof over model; defaults and symbolic-trace equality obligations regenerated from source; exhaustive "
              "option-space and dyadic-grid correspondence; round-trip monitor on real crowsetta objects")
 RULE = ("exhaustive option tables of label_to_tags / label_from_tag(s); segments, boxes, sequences and annotations on dyadic "
@@ -75,15 +80,18 @@ RULE = ("exhaustive option tables of label_to_tags / label_from_tag(s); segments
         "non-trivial = the implementation returned a value (not an error); distinct = distinct (operation, input)")
 TRUSTED = ["shapely `bounds` inside compute_bounds", "pydantic parsing of floats and the geometry validators (modelled: mkInterval, mkBox)",
            "crowsetta.Segment / BBox / Sequence / Annotation (BBox validators modelled as mkBBox and traced symbolically)",
-           "symbolic tracer stubs: soundevent.data constructors record their arguments, label functions return constants, "
-           "compute_bounds returns a symbolic 4-tuple"]
+           "Recording.from_file / media info of a WAV file (contract: path and time_expansion as requested, evaluated per call)",
+           "symbolic tracer stubs: soundevent.data constructors and crowsetta.Segment record their arguments, label functions "
+           "return constants, compute_bounds returns a symbolic 4-tuple (the interval's own coordinates for a TimeInterval), "
+           "int()/math.floor of a symbolic product is recorded (Python's truncation = pyInt; floor agrees for times >= 0)"]
 ASSUMPTIONS = ["samplerate > 0 and time_expansion > 0 (ZeroDivisionError otherwise, outside the model)",
                "binary64 arithmetic is exact on the dyadic grids used; one correctly rounded operation in round-once mode",
                "ordered-field semantics for the symbolic ties (no rounding)",
                "terms carry only label, name, definition (the harness builds no others)"]
-NOT_COMPARED = ["error messages (only the error class)", "uuids, notes, created_by, the clip of the resulting ClipAnnotation",
-                "sample indices in free mode (arbitrary floats): `int(t * samplerate)` rounds the product, the rational model cannot",
-                "annotation_to_clip_annotation without a recording (reads an audio file)"]
+NOT_COMPARED = ["error messages (only the error class)",
+                "uuids, notes, created_by, clip tags and the clip of the resulting ClipAnnotation (passed in a share of the cases so "
+                "that every branch runs; the property does not pin them)",
+                "sample indices in free mode (arbitrary floats): `int(t * samplerate)` rounds the product, the rational model cannot"]
 
 NS = types.SimpleNamespace
 MAXF = 5_000_000
@@ -835,14 +843,15 @@ def _defaults_obligation(ctx):
         return {k: v.default for k, v in inspect.signature(f).parameters.items() if v.default is not inspect.Parameter.empty}
     lt, lf, lfs = d(cio.label_to_tags), d(cio.label_from_tag), d(cio.label_from_tags)
     from soundevent.io.crowsetta import labels
-    if getattr(labels, "EMPTY_LABEL", None) is None:
-        ctx.fail("obligation", "keyword_defaults", detail="labels.EMPTY_LABEL is gone", extra={"op": "defaults"})
-        return
+    # the empty label is what the signatures say; the module constant (a private name) is compared when it exists
+    empty_label = getattr(labels, "EMPTY_LABEL", None)
+    if empty_label is None:
+        empty_label = lfs.get("empty_label")
     adj = {f.__name__: d(f).get("adjust_time_expansion") for f in
            (cio.segment_to_annotation, cio.bbox_to_annotation, cio.sequence_to_annotations, cio.annotation_to_clip_annotation)}
     empties = list(lt.get("empty_labels") or [])
     ext = {
-        "fallback": lt.get("fallback"), "emptyLabel": labels.EMPTY_LABEL,
+        "fallback": lt.get("fallback"), "emptyLabel": empty_label,
         "tagSeparator": lf.get("separator"), "joinSeparator": lfs.get("separator"), "valueOnly": lf.get("value_only"),
         "segCast": d(cio.segment_from_annotation).get("cast_to_segment"),
         "seqCast": d(cio.sequence_from_annotations).get("cast_to_segment"),
@@ -853,7 +862,7 @@ def _defaults_obligation(ctx):
         "annCast": d(cio.annotation_from_clip_annotation).get("cast_geometry"),
         "adjust": all(v is True for v in adj.values()),
     }
-    consistent = (empties == [labels.EMPTY_LABEL] and lfs.get("empty_label") == labels.EMPTY_LABEL
+    consistent = (empties == [empty_label] and lfs.get("empty_label") == empty_label
                   and all(d(f).get(k) is None for f, ks in ((cio.label_to_tags, ("tag_fn", "tag_mapping", "term_mapping", "key_mapping", "key", "term")),
                                                            (cio.label_from_tag, ("label_fn", "label_mapping")),
                                                            (cio.label_from_tags, ("seq_label_fn", "select_by_key", "index"))) for k in ks))
@@ -921,8 +930,10 @@ class _StubSegment:
 
 
 class _IntArgs:
-    """while active, `int(<symbolic number>)` records its argument and returns a sentinel integer, so that a
-    traced result field can be recognised as `int(<term>)` (Python's truncation itself is `pyInt` in the model)"""
+    """while active, `int(<symbolic number>)` (also `math.floor` / `math.trunc`) records its argument and returns a
+    sentinel integer, so that a traced result field can be recognised as `int(<term>)`.  Python's truncation itself
+    is `pyInt` in the model; `math.floor` is accepted as well because the property pins floor(time * samplerate) and
+    the two agree for the non-negative times of valid geometries (`C10_export_samples_floor`)"""
     BASE = 7_000_001
 
     def __enter__(self):
@@ -1054,8 +1065,15 @@ def _symbolic_ties(ctx):
     #     fields = int(span * samplerate) (crowsetta.Segment stubbed: its converters call float())
     V = ["s", "e", "st", "lo", "en", "hi", "sr"]
     s, e, st, lo, en, hi, sr = [Sym.var(v) for v in V]
-    with _Patched(segmod, data=_StubData, compute_bounds=lambda g: (st, lo, en, hi), label_from_tags=lambda tags, **kw: "x",
-                  crowsetta=NS(Segment=_StubSegment, __version__=getattr(getattr(segmod, "crowsetta", None), "__version__", "4"))):
+    def bounds_stub(g):
+        # bounds of a (validated, start <= end) TimeInterval are its own coordinates over the whole band, so a
+        # converter that takes every geometry through compute_bounds traces to the same span
+        if getattr(g, "type", None) == "TimeInterval" and len(g.coordinates) == 2:
+            return (g.coordinates[0], 0, g.coordinates[1], MAXF)
+        return (st, lo, en, hi)
+    with _Patched(segmod, data=_StubData, compute_bounds=bounds_stub, label_from_tags=lambda tags, **kw: "x",
+                  crowsetta=NS(Segment=_StubSegment, __version__=getattr(getattr(segmod, "crowsetta", None), "__version__", "4")),
+                  Segment=_StubSegment):      # either way the module may refer to the class
         for ty, cast in itertools.product(gen_geom.TYPES, (True, False)):
             name = f"ext_seg_export_{ty}_{'c' if cast else 'n'}"
             coords = [s, e] if ty == "TimeInterval" else [st, lo, en, hi]
